@@ -60,7 +60,7 @@ Print Assumptions C06_mul_dim.
 Theorem C06_pow_refuses_iff : forall b x xv xd, infer_e x = Ok (xv, xd) ->
   (is_any xv = false -> dimensionless xd = false -> infer_e (SPow b x) = Err E_VALUE) /\
   (is_any xv = true \/ dimensionless xd = true ->
-     forall bv bd d, infer_e b = Ok (bv, bd) -> dim_pow_expr bd xv = Some d ->
+     forall bv bd d, infer_e b = Ok (bv, bd) -> dim_pow_expr bd (exp_value x xv) = Some d ->
      exists v, infer_e (SPow b x) = Ok (v, d)).
 Proof. exact infer_pow_spec. Qed.
 Print Assumptions C06_pow_refuses_iff.
@@ -69,6 +69,12 @@ Theorem C06_pow_rational : forall b x bv bd q, infer_e x = Ok (VQ q, dzero) -> i
   exists v d, infer_e (SPow b x) = Ok (v, d) /\ deq d (dpow bd q).
 Proof. exact infer_pow_rational. Qed.
 Print Assumptions C06_pow_rational.
+
+(* a bare dimensionless quantity in the exponent stands for its value (x**Quantity(2) is an area for a length x) *)
+Theorem C06_pow_quantity : forall b bv bd q xd, dimensionless xd = true -> infer_e b = Ok (bv, bd) ->
+  exists v d, infer_e (SPow b (SQty (VQ q) xd)) = Ok (v, d) /\ deq d (dpow bd q).
+Proof. exact infer_pow_quantity. Qed.
+Print Assumptions C06_pow_quantity.
 
 (* a derivative divides by the dimensions of its variables *)
 Theorem C06_deriv_dim : forall fd z a n av ad, infer_e a = Ok (av, ad) ->
